@@ -346,8 +346,8 @@ def rule_raisers(ck: Check, repo: Repo) -> None:
         def atom(self, text, node, it):
             if text == "cls.can_handle_multi()":
                 return "can_multi"
-            if text == "cls.MULTI_LINE.end in text":
-                return "has_terminator"
+            if text in ("cls.MULTI_LINE.end in text", "cls.MULTI_LINE.end in line"):
+                return "@has_terminator"  # per text or per line: the terminator contains no newline
             return None
 
     def ref(v):
@@ -406,3 +406,6 @@ def run(ck: Check, repo: Repo) -> None:
     c07.postcondition(ck, repo, r6)
     # 'the text cannot be commented in that style -> failure': the writer refuses texts containing the terminator
     c07.rule_writer_refusal(ck, repo, "R7")
+    # a failure must be REPORTED (and the remaining files processed): the error handlers themselves must not raise
+    from . import c16
+    c16.rule_format_strings(ck, repo, "R8")
